@@ -1,6 +1,6 @@
 """C04 — generated source is a faithful, self-contained compilation of the traced graph.
 
-Proof: Props/C04.lean (compile_correct_wf, compile_correct, emit_closed, visitOrder_nodup, emit_once, emit_order, fuse_sound, value_computed_once obligation).
+Proof: Props/C04.lean (compile_correct_wf, compile_correct_extracted, fuse_produces_safe, compile_correct, emit_closed, visitOrder_nodup, emit_once, emit_order, fuse_sound, value_computed_once obligation).
 Tie (T-src): tools/extract/compile.py reads the switches of `get_usages`, `CodeObject.define` and the `fuse`
 loop from the source; the Lean model is parameterised by them.
 Tie (T-str): the text returned by the real `compile(graph, return_code=True)` equals the text produced by the
